@@ -147,7 +147,7 @@ def build(tier):
         vf.Ob("execute_terminal_state", "C29", complete=False, bound="at most 3 Interpreter::resume calls after the first state (unwind 34, needed by memcmp on Bytes32); states and codes fully symbolic",
               what="execute's loop: VM error -> Revert(0); Return/ReturnData/Revert reported unchanged; always terminal"),
     ]
-    u = vf.KaniUnit("c29_verdict", {"src/lib.rs": src}, obs, timeout_s=300, jobs=2)
+    u = vf.KaniUnit("c29_verdict", {"src/lib.rs": src}, obs, timeout_s=300, jobs=2, auto_files=["forc-test/src/lib.rs", "forc-test/src/execute.rs"])
     u.fragments = [vf.frag_record(fr[k]) for k in ("passed", "tpc", "pstate")] + [
         dict(vf.frag_record(ex), note="loop #0 of this fn, bytes %d..%d of the fragment" % (lp["start"], lp["body_close"]))]
     u.rewrites = rewrites + [{"rule": "R1", "before": "derive/cfg_attr attributes of ProgramState, TestPassCondition", "after": "plain derives", "times": 2}]
